@@ -35,11 +35,11 @@ def run(ctx):
     jf = [(src(e), t) for e, t in guard_facts(sa, js[0][0])]
     hf = [(src(e), t) for e, t in guard_facts(sa, h5[0][0])]
     ctx.ob("R-REG", "C19.1", sr, "json extension goes to the JSON writer, hdf5/h5 to the HDF5 writer, both with the same dictionary and the final filename",
-           ("extension == 'json'", True) in jf and ("extension in ['hdf5', 'h5']", True) in hf and [src(a) for a in js[0][1].args] == ["d", "filename"] and [src(a) for a in h5[0][1].args] == ["d", "filename"], f"json under {jf}; hdf5 under {hf}")
+           ("extension == 'json'", True) in jf and ("extension in ['hdf5', 'h5']", True) in hf and len(js[0][1].args) == 2 and [src(a) for a in js[0][1].args] == [src(a) for a in h5[0][1].args] and src(js[0][1].args[1]) == "filename" and bool(find_stmt(f"{src(js[0][1].args[0])} = self.ns.get_result_dictionary()", sr.node)), f"json under {jf}; hdf5 under {hf}")
     # three filename/extension cases
     ext = find_stmt("$$e = os.path.splitext(filename)[1].lstrip('.')", sr.node)
     ctx.ob("R-REG", "C19.1", sr, "extension handling: inferred from the filename, explicit, or appended when the filename has none (and rejected when neither is given)",
-           len(ext) == 1 and len(find_stmt("filename = '.'.join([filename, extension])", sr.node)) == 1 and len(find_stmt("extension = $$e", sr.node)) == 1 and any(isinstance(n, ast.Raise) for n in walk_no_nested(sr.node)), "")
+           len(ext) == 1 and len(find_stmt("filename = '.'.join([filename, extension])", sr.node)) == 1 and len(find_stmt("extension = $$e", sr.node, ext[0][1] if ext else None)) == 1 and any(isinstance(n, ast.Raise) for n in walk_no_nested(sr.node)), "")
     for m in ("run_standard_sampler", "run_importance_nested_sampler"):
         f = ctx.fn(f"{FS}.{m}")
         calls = [c for c in walk_no_nested(f.node) if isinstance(c, ast.Call) and call_name(c) == "self.save_results"]
@@ -107,20 +107,20 @@ def run(ctx):
         sup = find_stmt("$$d = super().get_result_dictionary()", f.node)
         rets = [n for n in walk_no_nested(f.node) if isinstance(n, ast.Return)]
         ctx.ob("R-SIB", "C19.4", f, f"result dictionary extends the base one and provides {sorted(keys)}", len(sup) == 1 and keys <= ks and len(rets) == 1 and src(rets[0].value) == src(sup[0][1]["d"]), f"keys {sorted(ks)}")
-    ps = find_stmt("d['posterior_samples'] = self.posterior_samples", sr.node)
-    gd = find_stmt("d = self.ns.get_result_dictionary()", sr.node)
+    gd = find_stmt("$$d = self.ns.get_result_dictionary()", sr.node)
+    ps = find_stmt("$$d['posterior_samples'] = self.posterior_samples", sr.node, gd[0][1] if gd else None)
     ctx.ob("R-SIB", "C19.4", sr, "save_results writes the sampler's result dictionary plus the posterior samples", len(ps) == 1 and len(gd) == 1, "")
     ctx.floor("C19.4", 4)
 
     # ---- C19.5 structured arrays keep their field names in JSON -----------------------------
-    conv = {b["k"].value for n, b in find_stmt("d[$k] = live_points_to_dict(d[$k])", sr.node) if isinstance(b["k"], ast.Constant)}
-    conv_nodes = [n for n, b in find_stmt("d[$k] = live_points_to_dict(d[$k])", sr.node)]
+    conv = {b["k"].value for n, b in find_stmt("$$d[$k] = live_points_to_dict($$d[$k])", sr.node, gd[0][1] if gd else None) if isinstance(b["k"], ast.Constant)}
+    conv_nodes = [n for n, b in find_stmt("$$d[$k] = live_points_to_dict($$d[$k])", sr.node, gd[0][1] if gd else None)]
     conv_guarded = all(("extension == 'json'", True) in [(src(e), t) for e, t in guard_facts(sa, sa.cfg.id_of(n))] and sa.cfg.can_follow(sa.cfg.id_of(n), js[0][0]) for n in conv_nodes)
     for owner, keys in STRUCTURED_RESULT_KEYS.items():
         fn_ = sr if owner == FS else ctx.fn(owner + ".get_result_dictionary")
         for k, producer in keys.items():
             # the table entry must still describe the code
-            st = [n for n, b in find_stmt(f"d['{k}'] = $v", fn_.node)]
+            st = [n for n, b in find_stmt(f"$$d['{k}'] = $v", fn_.node)]
             ctx.require(len(st) >= 1, f"structured-result table entry {owner}:{k} no longer matches the code")
             ctx.ob("R-TYPE", "C19.5", fn_, f"structured array result `{k}` is converted with its field names (live_points_to_dict) before the JSON writer sees it", k in conv and conv_guarded,
                    "the JSON encoder turns an ndarray into obj.tolist(): a structured array becomes a list of plain tuples and the field names are not in the file" if k not in conv else "", node=st[0])
